@@ -37,3 +37,13 @@ package checker
 //@   requires v != nil && node != nil
 //@   ensures[first-wins] old(v.err) != nil ==> v.err == old(v.err)
 //@   ensures[recorded] old(v.err) == nil ==> v.err != nil
+
+// `#` has the element type of the innermost collection being iterated (C03, C15, C18)
+//@ func checker.indexType returns t ok
+//@   pure
+//@ func checker.visitor.PointerNode returns t
+//@   property C03 C15 C18
+//@   mode panics
+//@   requires v != nil && node != nil
+//@   assigns obj(v)
+//@   ensures[innermost] len(v.collections) > 0 && v.err == nil ==> t == res("checker.indexType", v.collections[len(v.collections)-1])
